@@ -24,8 +24,11 @@
   * `cc_end_wts`, `cc_end_wts_pos`   closed form and positivity of the two end weights
   * `idft_reflect`, `cc_wts_symmetric`   w_i = w_{n-1-i}
   * `cc_wts_endpoints`, `cc_wts_scale`  (post-processing, any ifft result)
-  partial (DESIGN §7 C18): positivity of the interior weights and exactness to degree n-1 for all n are not proved
-  (per-n oracle in the harness).
+  * `ccH_nonpos`, `ccIdft_ge_w0`, `cc_wts_ge_end`, `cc_wts_pos`, `cc_wts_two`, `cc_wts_pos_all`
+                            ALL weights are positive, for every n ≥ 2 and every interval, and none is smaller than the end weights:
+                            every entry of h = v + g but the first is ≤ 0, so replacing each cosine of the inverse DFT by 1 can
+                            only lower it, and Σ h = s·wcc0
+  partial (DESIGN §7 C18): exactness to degree n-1 for all n is not proved (per-n oracle in the harness).
 -/
 import MudProof.RealInst
 import MudModel.Quadrature
@@ -722,5 +725,142 @@ example : ∑ i : Fin 3, ccWts 3 (ccIdft 2 Real.pi (ccH 2)) (0 : ℝ) 2 i = 2 - 
 /-- non-vacuity: the 3-point Simpson rule on [0,2] -/
 example : ∑ i, simpsonWts 3 (0 : ℝ) 2 i * gridPts 3 0 2 i ^ 3 = F 3 2 - F 3 0 :=
   simpson_moment 1 (le_refl 1) 0 2 3 (le_refl 3)
+
+/-! ### Clenshaw–Curtis: all weights are positive, for every n -/
+
+theorem ccW0_pos (s : ℕ) (hs : 2 ≤ s) : (0 : ℝ) < ccW0 (α := ℝ) s := by
+  have h1 : (0 : ℝ) < ((s * s - 1 + s % 2 : ℕ) : ℝ) := by
+    have : 0 < s * s - 1 + s % 2 := by
+      have : 2 * 2 ≤ s * s := Nat.mul_le_mul hs hs
+      omega
+    exact_mod_cast this
+  unfold ccW0; positivity
+
+/-- the middle entry of `h = v + g` is negative -/
+theorem ccH_mid_neg (s p : ℕ) (hp : 1 ≤ p) (hcase : s = 2 * p ∨ s = 2 * p + 1) :
+    ((s : ℝ) - 3) / (2 * (p : ℝ) - 1) - 1 + ccW0 (α := ℝ) s * (((2 - s % 2) * s - 1 : ℕ) : ℝ) ≤ 0 := by
+  have hp1 : (1 : ℝ) ≤ p := by exact_mod_cast hp
+  have hden : (0 : ℝ) < 2 * (p : ℝ) - 1 := by linarith
+  rcases hcase with h | h
+  · have hm : s % 2 = 0 := by omega
+    have hnat : (2 - s % 2) * s - 1 = 4 * p - 1 := by rw [hm, h]; omega
+    have hc : ((4 * p - 1 : ℕ) : ℝ) = 4 * (p : ℝ) - 1 := by
+      rw [Nat.cast_sub (by omega)]; push_cast; ring
+    have hw : ccW0 (α := ℝ) s = 1 / (4 * (p : ℝ) ^ 2 - 1) := by
+      unfold ccW0
+      have : s * s - 1 + s % 2 = 4 * p * p - 1 := by rw [hm, h]; ring_nf
+      rw [this, Nat.cast_sub (by nlinarith)]; push_cast; ring
+    have hsR : (s : ℝ) = 2 * p := by exact_mod_cast h
+    have hd2 : (0 : ℝ) < 4 * (p : ℝ) ^ 2 - 1 := by nlinarith
+    rw [hnat, hc, hw, hsR]
+    have e : (2 * (p : ℝ) - 3) / (2 * (p : ℝ) - 1) - 1 + 1 / (4 * (p : ℝ) ^ 2 - 1) * (4 * (p : ℝ) - 1)
+        = -3 / (4 * (p : ℝ) ^ 2 - 1) := by
+      have hf : (4 * (p : ℝ) ^ 2 - 1) = (2 * (p : ℝ) - 1) * (2 * (p : ℝ) + 1) := by ring
+      rw [hf]
+      have : (2 * (p : ℝ) + 1) ≠ 0 := by linarith
+      field_simp
+      ring
+    rw [e]
+    exact div_nonpos_of_nonpos_of_nonneg (by norm_num) hd2.le
+  · have hm : s % 2 = 1 := by omega
+    have hnat : (2 - s % 2) * s - 1 = 2 * p := by rw [hm, h]; omega
+    have hw : ccW0 (α := ℝ) s = 1 / (2 * (p : ℝ) + 1) ^ 2 := by
+      unfold ccW0
+      have : s * s - 1 + s % 2 = (2 * p + 1) * (2 * p + 1) := by
+        rw [hm, h]
+        have : 1 ≤ (2 * p + 1) * (2 * p + 1) := Nat.one_le_iff_ne_zero.mpr (by positivity)
+        omega
+      rw [this]; push_cast; ring
+    have hsR : (s : ℝ) = 2 * p + 1 := by exact_mod_cast h
+    rw [hnat, hw, hsR]
+    have e : (2 * (p : ℝ) + 1 - 3) / (2 * (p : ℝ) - 1) - 1 + 1 / (2 * (p : ℝ) + 1) ^ 2 * ((2 * p : ℕ) : ℝ)
+        = -(6 * (p : ℝ) + 1) / ((2 * (p : ℝ) - 1) * (2 * (p : ℝ) + 1) ^ 2) := by
+      have : (2 * (p : ℝ) + 1) ≠ 0 := by linarith
+      push_cast
+      field_simp
+      ring
+    rw [e]
+    apply div_nonpos_of_nonpos_of_nonneg
+    · linarith
+    · positivity
+
+/-- every entry of `h = v + g` other than the first is `≤ 0` -/
+theorem ccH_nonpos (s : ℕ) (hs : 2 ≤ s) (i : Fin s) (hi : i.val ≠ 0) : ccH (α := ℝ) s i ≤ 0 := by
+  obtain ⟨p, hp, hdiv, hcase⟩ : ∃ p, 1 ≤ p ∧ s / 2 = p ∧ (s = 2 * p ∨ s = 2 * p + 1) := ⟨s / 2, by omega, rfl, by omega⟩
+  have hw := ccW0_pos s hs
+  -- the value for a base index `k`
+  have hbase : ∀ k : ℕ, 1 ≤ k → ccVBase (α := ℝ) s k + ccGBase (α := ℝ) s k ≤ 0 := by
+    intro k hk
+    by_cases hlt : k < s / 2
+    · have hk1 : (1 : ℝ) ≤ k := by exact_mod_cast hk
+      have hneg : 1 - 4 * ((k * k : ℕ) : ℝ) ≤ 0 := by push_cast; nlinarith
+      have : (2 : ℝ) / (1 - 4 * ((k * k : ℕ) : ℝ)) ≤ 0 := div_nonpos_of_nonneg_of_nonpos (by norm_num) hneg
+      simp only [ccVBase, ccGBase, hlt, if_true, lit_real]
+      push_cast at this ⊢
+      linarith
+    · have hlt' : ¬ k < p := by rwa [hdiv] at hlt
+      simp only [ccVBase, ccGBase, hdiv, hlt', if_false, lit_real]
+      have := ccH_mid_neg s p hp hcase
+      push_cast at this ⊢
+      linarith
+  unfold ccH ccV ccG
+  by_cases hle : i.val ≤ s / 2
+  · simp only [hle, if_true]
+    exact hbase i.val (by omega)
+  · simp only [hle, if_false]
+    exact hbase (s - i.val) (by have := i.isLt; omega)
+
+/-- **every entry of the inverse DFT is at least `wcc0`**: all `h_j` with `j ≠ 0` are `≤ 0`, so replacing every cosine by one
+    can only lower the sum, and the sum of the `h_j` is `s·wcc0` -/
+theorem ccIdft_ge_w0 (s : ℕ) (hs : 2 ≤ s) (k : ℕ) : ccW0 (α := ℝ) s ≤ ccIdft s Real.pi (ccH s) k := by
+  have hsR : (0 : ℝ) < (s : ℝ) := by exact_mod_cast (by omega : 0 < s)
+  rw [ccIdft_real, le_div_iff₀ hsR, mul_comm, ← ccH_sum s hs]
+  apply Finset.sum_le_sum
+  intro j _
+  by_cases hj : j.val = 0
+  · simp [hj]
+  · exact le_mul_of_le_one_right (ccH_nonpos s hs j hj) (Real.cos_le_one _)
+
+/-- **all Clenshaw–Curtis weights are positive, for every point count `n ≥ 3` and every interval**; no interior weight is smaller
+    than the two end weights -/
+theorem cc_wts_ge_end (n : ℕ) (hn : 3 ≤ n) (a b : ℝ) (hab : a < b) (i : Fin n) :
+    ccW0 (α := ℝ) (n - 1) * ((b - a) / 2) ≤ ccWts n (ccIdft (n - 1) Real.pi (ccH (n - 1))) a b i := by
+  have hba : (0 : ℝ) ≤ (b - a) / 2 := by linarith
+  simp only [ccWts, frac_real]
+  have e : ((1 : ℕ) : ℝ) / ((2 : ℕ) : ℝ) * (b - a) = (b - a) / 2 := by push_cast; ring
+  rw [e]
+  apply mul_le_mul_of_nonneg_right _ hba
+  split
+  · exact ccIdft_ge_w0 (n - 1) (by omega) 0
+  · exact ccIdft_ge_w0 (n - 1) (by omega) _
+
+theorem cc_wts_pos (n : ℕ) (hn : 3 ≤ n) (a b : ℝ) (hab : a < b) (i : Fin n) :
+    0 < ccWts n (ccIdft (n - 1) Real.pi (ccH (n - 1))) a b i := by
+  have h1 := ccW0_pos (n - 1) (by omega)
+  have h2 : (0 : ℝ) < (b - a) / 2 := by linarith
+  exact lt_of_lt_of_le (by positivity) (cc_wts_ge_end n hn a b hab i)
+
+/-- the two-point rule (`n = 2`, the trapezoid): both weights are `(b-a)/2` -/
+theorem cc_wts_two (a b : ℝ) (i : Fin 2) : ccWts 2 (ccIdft 1 Real.pi (ccH 1)) a b i = (b - a) / 2 := by
+  have h0 : ccIdft 1 Real.pi (ccH (α := ℝ) 1) 0 = 1 := by
+    rw [idft_zero]; simp
+    exact ccH_one
+  have : ∀ j : ℕ, (if j = 2 - 1 then ccIdft 1 Real.pi (ccH (α := ℝ) 1) 0 else ccIdft 1 Real.pi (ccH (α := ℝ) 1) j) = 1 := by
+    intro j
+    by_cases hj : j = 2 - 1
+    · simp [hj, h0]
+    · simp only [hj, if_false]
+      rw [ccIdft_real]; simp
+      exact ccH_one
+  simp only [ccWts, frac_real, this]
+  push_cast; ring
+
+/-- … so the weights are positive for **every** `n ≥ 2` -/
+theorem cc_wts_pos_all (n : ℕ) (hn : 2 ≤ n) (a b : ℝ) (hab : a < b) (i : Fin n) :
+    0 < ccWts n (ccIdft (n - 1) Real.pi (ccH (n - 1))) a b i := by
+  by_cases h2 : n = 2
+  · subst h2
+    rw [cc_wts_two]; linarith
+  · exact cc_wts_pos n (by omega) a b hab i
 
 end Mud.C18
